@@ -86,9 +86,12 @@ class _Table(PyStub):
         return list(self.columns)
 
 
-def _mk_read_csv(calls):
-    def read_csv(f, header='infer', nrows=None, sep=',', skip_blank_lines=True, delim_whitespace=False, **kw):
+def _mk_read_csv(calls, default_sep=','):
+    def read_csv(f, header='infer', nrows=None, sep=None, skip_blank_lines=True, delim_whitespace=False, delimiter=None, **kw):
         from ..symx import ModelError
+        if sep is not None and delimiter is not None:
+            raise ModelError('ValueError', 'Specified a sep and a delimiter; you can only specify one.')
+        sep = delimiter if delimiter is not None else (sep if sep is not None else default_sep)      # pandas: `delimiter` is an alias of `sep`; read_table differs only in the default
         # keywords that change what value a printed cell becomes (or which cells are read), with the defaults the model assumes; anything else is outside the model
         defaults = {'na_filter': True, 'keep_default_na': True, 'na_values': None, 'dtype': None, 'converters': None, 'true_values': None, 'false_values': None, 'thousands': None, 'decimal': '.',
                     'comment': None, 'usecols': None, 'names': None, 'index_col': None, 'skiprows': None, 'skipfooter': 0, 'skipinitialspace': False, 'quotechar': '"', 'escapechar': None,
@@ -171,6 +174,7 @@ def read_model(ctx):
             DataFrame = 'DataFrame'
         pd_ = PD()
         pd_.read_csv = _mk_read_csv(calls)
+        pd_.read_table = _mk_read_csv(calls, default_sep='\t')
 
         def opener(x):
             f = _LogFile(x)
